@@ -401,8 +401,9 @@ func runTraversalCase(c *tvCase, dir string, rep *Report) []tvViol {
 					if fmt.Sprint(pc) != fmt.Sprint(names) {
 						add("root.SelectiveCar.Prepare/cids", fmt.Sprintf("Cids() = %v, Write wrote %v", pc, names))
 					}
-					var dcbs []carv1root.Block
-					prep2, _ := sc.Prepare(func(b carv1root.Block) error { dcbs = append(dcbs, b); return nil })
+					var dcbs, dcbs2 []carv1root.Block
+					prep2, _ := sc.Prepare(func(b carv1root.Block) error { dcbs = append(dcbs, b); return nil },
+						func(b carv1root.Block) error { dcbs2 = append(dcbs2, b); return nil }) // every registered callback sees the same blocks
 					var dbuf bytes.Buffer
 					if derr := prep2.Dump(bg, &dbuf); derr != nil {
 						add("root.SelectiveCar.Dump/error", derr.Error())
@@ -410,10 +411,16 @@ func runTraversalCase(c *tvCase, dir string, rep *Report) []tvViol {
 						if !bytes.Equal(dbuf.Bytes(), wbuf.Bytes()) {
 							add("root.SelectiveCar.Dump/bytes", "Dump and Write produce different bytes")
 						}
-						for i, b := range dcbs {
-							if i < len(offs) && (int(b.Offset) != offs[i] || int(b.Size) != lens[i]) {
-								add("root.SelectiveCar.Dump/callbacks", fmt.Sprintf("Dump callback %d reports (offset %d, size %d), section is at %d with %d bytes", i, b.Offset, b.Size, offs[i], lens[i]))
+						for _, list := range [][]carv1root.Block{dcbs, dcbs2} {
+							if len(list) != len(offs) {
+								add("root.SelectiveCar.Dump/callbacks", fmt.Sprintf("%d Dump callbacks for %d sections", len(list), len(offs)))
 								break
+							}
+							for i, b := range list {
+								if int(b.Offset) != offs[i] || int(b.Size) != lens[i] {
+									add("root.SelectiveCar.Dump/callbacks", fmt.Sprintf("Dump callback %d reports (offset %d, size %d), section is at %d with %d bytes", i, b.Offset, b.Size, offs[i], lens[i]))
+									break
+								}
 							}
 						}
 					}
